@@ -7,6 +7,7 @@ import (
 	"context"
 	"fmt"
 	"reflect"
+	"sort"
 	"strings"
 
 	"github.com/hyperjumptech/grule-rule-engine/ast"
@@ -70,7 +71,7 @@ func (d *DataContext) HasVariableChange() bool       { return d.Inner.HasVariabl
 func (d *DataContext) Add(key string, obj interface{}) error {
 	ev := &Event{Kind: "add", Path: key, Write: key != "DEFUNC"}
 	if key != "DEFUNC" {
-		ev.Detail = fmt.Sprintf("%T(%v)", obj, obj)
+		ev.Detail = show(reflect.ValueOf(obj))
 	}
 	switch d.Sink.Step(ev) {
 	case FaultErr:
@@ -188,14 +189,78 @@ func (n *ValueNode) IsReal() bool    { return n.Inner.IsReal() }
 func (n *ValueNode) IsBool() bool    { return n.Inner.IsBool() }
 func (n *ValueNode) IsString() bool  { return n.Inner.IsString() }
 
+// show renders a value for the event log. It never prints an address: the log of a run must be
+// a pure function of the scenario.
 func show(v reflect.Value) string {
+	var b strings.Builder
+	render(&b, v, 0)
+	return b.String()
+}
+
+func render(b *strings.Builder, v reflect.Value, depth int) {
 	if !v.IsValid() {
-		return "<invalid>"
+		b.WriteString("<invalid>")
+		return
 	}
-	if v.CanInterface() {
-		return fmt.Sprintf("%s(%v)", v.Type(), v.Interface())
+	if depth > 6 {
+		b.WriteString("...")
+		return
 	}
-	return v.Type().String()
+	switch v.Kind() {
+	case reflect.Ptr, reflect.Interface:
+		if v.IsNil() {
+			b.WriteString(v.Type().String() + "(nil)")
+			return
+		}
+		if v.Kind() == reflect.Ptr {
+			b.WriteString("&")
+		}
+		render(b, v.Elem(), depth+1)
+	case reflect.Struct:
+		if v.Type().String() == "time.Time" && v.CanInterface() {
+			fmt.Fprintf(b, "time(%v)", v.Interface())
+			return
+		}
+		b.WriteString(v.Type().String() + "{")
+		for i := 0; i < v.NumField(); i++ {
+			if v.Type().Field(i).PkgPath != "" {
+				continue
+			}
+			if i > 0 {
+				b.WriteString(" ")
+			}
+			render(b, v.Field(i), depth+1)
+		}
+		b.WriteString("}")
+	case reflect.Slice, reflect.Array:
+		b.WriteString("[")
+		for i := 0; i < v.Len(); i++ {
+			if i > 0 {
+				b.WriteString(" ")
+			}
+			render(b, v.Index(i), depth+1)
+		}
+		b.WriteString("]")
+	case reflect.Map:
+		keys := v.MapKeys()
+		strs := make([]string, len(keys))
+		for i, k := range keys {
+			var kb, vb strings.Builder
+			render(&kb, k, depth+1)
+			render(&vb, v.MapIndex(k), depth+1)
+			strs[i] = kb.String() + ":" + vb.String()
+		}
+		sort.Strings(strs)
+		b.WriteString("map[" + strings.Join(strs, " ") + "]")
+	case reflect.Func, reflect.Chan, reflect.UnsafePointer:
+		b.WriteString(v.Type().String())
+	default:
+		if v.CanInterface() {
+			fmt.Fprintf(b, "%s(%v)", v.Type(), v.Interface())
+		} else {
+			b.WriteString(v.Type().String())
+		}
+	}
 }
 
 func (n *ValueNode) fault(ev *Event) error {
